@@ -337,7 +337,8 @@ ReadFails(f, d, r) ==
             (IF ReadWordOk(f, AttrCP(d.tok, "word"), AttrCP(r.tok, IF f \in {"jigg_xml", "ja"} /\ ~HasAttr(r.tok, "word") THEN "surf" ELSE "word"))
              THEN {} ELSE {"R.words"})
             \cup (CASE f = "auto" -> (IF AttrV(r.tok, "pos", "<absent>") = AttrV(d.tok, "pos", "POS") THEN {} ELSE {"R.pos"})
-                    [] f = "xml" -> (IF \A key \in {"lemma", "pos", "entity", "chunk"} : AttrV(r.tok, key, "<absent>") = AttrV(d.tok, key, "<absent>")
+                    \* C&C XML carries every attribute of the token (whatever its name): the same set of (name, value) pairs comes back
+                    [] f = "xml" -> (IF {<<r.tok[i].k, r.tok[i].v>> : i \in DOMAIN r.tok} = {<<d.tok[i].k, d.tok[i].v>> : i \in DOMAIN d.tok}
                                      THEN {} ELSE {"R.attrs"})
                     [] OTHER -> {})
           ELSE IF d.k = "U" THEN
